@@ -174,3 +174,13 @@ func doubleIntermediates(p *pt.Built) []*big.Int {
 }
 
 const numDoubleIntermediates = 8
+
+func without(l []string, drop string) []string {
+	var out []string
+	for _, x := range l {
+		if x != drop {
+			out = append(out, x)
+		}
+	}
+	return out
+}
